@@ -192,8 +192,9 @@ impl<N, C> Topology<N, C> {
         let src = src.into();
 
         let mut visited = Vec::new();
-        let mut queue = Vec::new();
-        queue.push(QueueElement {
+        // All edges cost one hop, so a FIFO queue visits the nodes in order of their distance.
+        let mut queue = std::collections::VecDeque::new();
+        queue.push_back(QueueElement {
             idx: self
                 .nodes
                 .iter()
@@ -204,7 +205,7 @@ impl<N, C> Topology<N, C> {
         });
 
         let mut mapping = FxHashMap::with_hasher(FxBuildHasher::default());
-        while let Some(cur) = queue.pop() {
+        while let Some(cur) = queue.pop_front() {
             if visited.contains(&cur.idx) {
                 continue;
             }
@@ -216,7 +217,7 @@ impl<N, C> Topology<N, C> {
 
             for edge in self.edges_by_id(cur.idx) {
                 if !visited.contains(&edge.to.id) {
-                    queue.push(QueueElement {
+                    queue.push_back(QueueElement {
                         idx: edge.to.id,
                         distance: cur.distance + 1,
                         next: Some(cur.next.clone().unwrap_or(edge)),
